@@ -43,7 +43,9 @@ func extractURL(req *http.Request) *url.URL {
 	if val := req.Header.Get("X-Forwarded-Uri"); len(val) != 0 {
 		if forwardedURI, err := url.Parse(val); err == nil {
 			rawPath = forwardedURI.EscapedPath()
-			query = forwardedURI.Query().Encode()
+			// the query is taken as received. Parsing and encoding it again would sort its settings,
+			// change their encoding and drop those the parser does not accept
+			query = forwardedURI.RawQuery
 		}
 	}
 
